@@ -216,7 +216,7 @@ impl LinkRelay<OutputHandle> {
     pub fn on_incoming_disposition(&mut self, role: Role, settled: bool, state: Option<DeliveryState>, delivery_tag: DeliveryTag) -> (echo: bool)
         ensures
             *final(self) == relay_after(*old(self), RelayCall::Disposition { role, settled, state, tag: delivery_tag }),
-            echo == relay_echo(*old(self), settled),   // contract of the real LinkRelay::on_incoming_disposition, proved in unit LINKRELAY
+            echo == relay_echo(*old(self), settled, state),   // contract of the real LinkRelay::on_incoming_disposition, proved in unit LINKRELAY
     { unimplemented!() }
 
     #[verifier::external_body]
@@ -236,9 +236,9 @@ pub enum LinkRelayError { UnattachedHandle, TransferFrameToSender }
 pub open spec fn relay_after(r: LinkRelay<OutputHandle>, c: RelayCall) -> LinkRelay<OutputHandle> {
     r.with_calls(r.calls().push(c))
 }
-/// echo requested by a link for a disposition: only a sender whose peer settles second answers a non-settled disposition
-pub open spec fn relay_echo(r: LinkRelay<OutputHandle>, settled: bool) -> bool {
-    r is Sender && !settled && r.rsm() == ReceiverSettleMode::Second
+/// echo requested by a link for a disposition: only a sender whose peer settles second answers a non-settled disposition, and only one that reports a TERMINAL outcome
+pub open spec fn relay_echo(r: LinkRelay<OutputHandle>, settled: bool, state: Option<DeliveryState>) -> bool {
+    r is Sender && !settled && r.rsm() == ReceiverSettleMode::Second && state is Some && state->Some_0.spec_is_terminal()
 }
 
 //@@ type file=fe2o3-amqp/src/session/error.rs kind=enum name=SessionInnerError
@@ -334,7 +334,7 @@ pub open spec fn disp_step(s: DS, role: Role, settled: bool, state: Option<Deliv
             DS {
                 links: s.links.insert(h, relay_after(s.links[h], RelayCall::Disposition { role, settled, state, tag })),
                 dt: dt2,
-                echo_ids: if relay_echo(s.links[h], settled) { s.echo_ids.push(id) } else { s.echo_ids },
+                echo_ids: if relay_echo(s.links[h], settled, state) { s.echo_ids.push(id) } else { s.echo_ids },
             }
         } else { DS { dt: dt2, ..s } }
     } else { s }
@@ -978,6 +978,16 @@ impl Session {
         final(self).remote_incoming_window_exhausted_buffer == old(self).remote_incoming_window_exhausted_buffer,
 //@@ end
 
+//@@ fn file=fe2o3-amqp/src/session/mod.rs impl=`impl endpoint::Session for Session` name=allocate_incoming_link
+//@@ spec
+    requires
+        old(self).link_name_by_output_handle.spec_vacant_key() < 0x1_0000_0000,   // ASSUMED (as for allocate_link)
+    ensures
+        old(self).link_by_input_handle@.contains_key(input_handle) ==> r is Err && final(self).link_by_input_handle@ == old(self).link_by_input_handle@,   // [C11.route.handle-in-use-refused] (listener side) accepting a link whose peer handle is still held by an attached link is refused, the holder keeps the handle
+        r is Ok ==> final(self).link_by_input_handle@ == old(self).link_by_input_handle@.insert(input_handle, relay_with_handle(link_relay, r->Ok_0)),   // [C11.route.attach-maps] the peer's handle now designates exactly the accepted link
+        r is Err ==> final(self).link_by_input_handle@ == old(self).link_by_input_handle@,
+//@@ end
+
 //@@ fn file=fe2o3-amqp/src/session/mod.rs impl=`impl endpoint::Session for Session` name=on_outgoing_detach
 //@@ subst `detach.handle.clone().into()` => `handle_to_output(detach.handle.clone())` rule=R16
 //@@ spec
@@ -1008,13 +1018,15 @@ impl Session {
 //@@ subst `|_v0|` => `|_v0: ChanSendError|` rule=optional-R5
 //@@ spec
     ensures
-        !old(self).link_by_name@.contains_key(attach.name)
+        old(self).link_by_input_handle@.contains_key(InputHandle(attach.handle.0))
+            ==> r == Err::<(), SessionInnerError>(SessionInnerError::HandleInUse) && final(self).link_by_input_handle == old(self).link_by_input_handle && final(self).link_by_name == old(self).link_by_name,   // [C11.route.handle-in-use-refused] an attach that names a handle the peer already uses for a link that is still attached is refused (session error handle-in-use): it must not silently replace the holder in the routing table, leaving two attached links behind one handle
+        !old(self).link_by_input_handle@.contains_key(InputHandle(attach.handle.0)) && !old(self).link_by_name@.contains_key(attach.name)
             ==> r == Err::<(), SessionInnerError>(SessionInnerError::RemoteAttachingLinkNameNotFound)
                 && final(self).link_by_name@ == old(self).link_by_name@ && final(self).link_by_input_handle == old(self).link_by_input_handle,   // [C15.attach.unknown-name] an attach for a name never allocated is an error and maps nothing
-        old(self).link_by_name@.contains_key(attach.name) && old(self).link_by_name@[attach.name] is None
+        !old(self).link_by_input_handle@.contains_key(InputHandle(attach.handle.0)) && old(self).link_by_name@.contains_key(attach.name) && old(self).link_by_name@[attach.name] is None
             ==> r == Err::<(), SessionInnerError>(SessionInnerError::HandleInUse)
                 && final(self).link_by_input_handle == old(self).link_by_input_handle,                 // [C11.name.second-attach-refused] a second attach for a name already attached is refused and reaches no link
-        old(self).link_by_name@.contains_key(attach.name) && old(self).link_by_name@[attach.name] is Some ==> ({
+        !old(self).link_by_input_handle@.contains_key(InputHandle(attach.handle.0)) && old(self).link_by_name@.contains_key(attach.name) && old(self).link_by_name@[attach.name] is Some ==> ({
             let relay0 = old(self).link_by_name@[attach.name]->Some_0;
             &&& final(self).link_by_name@ == old(self).link_by_name@.insert(attach.name, None)          // [C11.name.attached-once] the pending relay is taken: the name cannot be attached again
             &&& r is Ok ==> final(self).link_by_input_handle@.dom() =~= old(self).link_by_input_handle@.dom().insert(InputHandle(attach.handle.0))
